@@ -8,9 +8,12 @@ From Verif.Proofs Require Import Agg_spec Agg_lemmas Agg_closed C05_lemmas.
 Import ListNotations.
 
 (* Refinement: for every well-formed configuration and every history of records and resets in
-   which each record has the template the code assumes and all records of a flow use the same
-   template, the abstraction of flow k's aggregated record is the specification folded over the
-   events of k (its own records, classified source / destination / single stream, and its resets). *)
+   which each record has the template the code assumes and all records of a flow use equivalent
+   templates - every field is found under its name with the same concrete kind in each of them; the
+   ORDER of the fields is free (two nodes, or one exporter before and after a template change, may
+   send the same fields in different orders; see C05_order_irrelevant below) -, the abstraction
+   of flow k's aggregated record is the specification folded over the events of k (its own
+   records, classified source / destination / single stream, and its resets). *)
 Theorem C05_aggregation : forall c h k,
   wf_config c = true -> typed_history c h = true ->
   absf c (lookup (run c h) k) = spec_flow c (events_of c h k).
@@ -46,7 +49,8 @@ Print Assumptions C05_reset.
 (* ================================================================ the closed forms of the property statement
    Derived from C05_aggregation and spec_step alone (Proofs/Agg_closed.v).  Quantifier: every
    well-formed configuration c, every history h inside the exporter contract
-     wf_history c h = typed_history c h  (the template the code assumes, same template per flow)
+     wf_history c h = typed_history c h  (the template the code assumes, equivalent templates per
+                                          flow: the same fields by name and kind, in any order)
                    && for every flow: every record has end > start and uint64 counters, the flow's
                       correlation requirement is constant (a flow that needs no correlation is one
                       reporting stream feeding both nodes' fields), and per reporting node end
@@ -210,3 +214,46 @@ Example C05_common_total_needs_flow_mono :
   option_map (fun fl => nth 2 (f_stat (abs ex_cfg (fl_rec fl))) 0%N) (lookup (run ex_cfg ex_history) ex_key) = Some 3000%N /\
   option_map (fun x : frec => stat 2 (snd x)) (latest (events_of ex_cfg ex_history ex_key)) = Some 2800%N.
 Proof. exact ex_history_not_flow_mono. Qed.
+
+(* ================================================================ the order of the fields is irrelevant
+   typed_history (hence wf_history) compares the templates of the records of one flow by
+   shape_equiv: every lookup by name gives the same kind in both.  For templates without duplicated
+   names that is "the same set of (name, kind) fields", in particular every permutation ... *)
+Theorem C05_equiv_is_same_field_set : forall a b : list (string * kind),
+  NoDup (map fst a) -> NoDup (map fst b) ->
+  (shape_equiv a b = true <-> forall f, In f a <-> In f b).
+Proof. exact shape_equiv_nodup_iff. Qed.
+Print Assumptions C05_equiv_is_same_field_set.
+Theorem C05_order_irrelevant : forall r r' : record, NoDup (map fst r) -> Permutation.Permutation r r' ->
+  shape_equiv (shape r) (shape r') = true /\ forall n, get r' n = get r n.
+Proof. exact record_perm_equiv. Qed.
+Print Assumptions C05_order_irrelevant.
+(* ... and the hypothesis is weaker than the former "same template, field for field in the same order" *)
+Theorem C05_hypothesis_weaker_than_same_order : forall c h,
+  typed_history_ordered c h = true -> typed_history c h = true.
+Proof. exact typed_history_ordered_incl. Qed.
+Print Assumptions C05_hypothesis_weaker_than_same_order.
+
+(* non-vacuity for mixed layouts: two records of one flow, the second with its fields in reverse
+   order, are inside wf_history (and outside the former same-order hypothesis); the aggregated
+   record is what the closed forms say - end 20, packet deltas 1000 + 2000 and 1 + 1, the totals of
+   the latest record (reverse packet total 15, not the forward 30), throughput 8 x 2000 / 10 and
+   8 x 1000 / 10 *)
+Example C05_mixed_layout_nonvacuous :
+  wf_history ex_cfg ex_mixed2 = true /\ typed_history_ordered ex_cfg ex_mixed2 = false /\
+  ex_view_of ex_mixed2 =
+    Some (20, [30; 3000; 3000; 15; 2; 1500], [1600; 800], [30; 3000; 3000; 15; 2; 1500], [0; 0; 0; 0; 0; 0])%N /\
+  (let evs := events_of ex_cfg ex_mixed2 ex_key in
+   maxl (ends evs) = 20%N /\ node_tp SrcNode evs = [1600; 800]%N /\
+   node_delta SrcNode 1 evs = 3000%N /\ node_delta SrcNode 4 evs = 2%N /\
+   map (fun i => node_total SrcNode i evs) [0; 2; 3; 5]%nat = [30; 3000; 15; 1500]%N).
+Proof. exact ex_mixed2_ok. Qed.
+(* the worked history sent in three layouts (as is, reversed, forward and reverse counters in each
+   other's places) gives the same aggregated values as in one layout, and the stored record keeps
+   the layout of the flow's first record *)
+Example C05_mixed_layout_worked_history :
+  wf_history ex_cfg ex_mixed4 = true /\ typed_history_ordered ex_cfg ex_mixed4 = false /\
+  ex_view_of ex_mixed4 = ex_view_of ex_history /\
+  option_map (fun fl => firstn 18 (map fst (fl_rec fl))) (lookup (run ex_cfg ex_mixed4) ex_key)
+    = Some (map fst (ex_rec true 0 0 0)).
+Proof. exact ex_mixed4_ok. Qed.
